@@ -32,6 +32,11 @@ var configCmd = &cobra.Command{
 		if len(dotSplit) != 2 {
 			return ErrInvalidArgs
 		}
+		// a section without a name or a setting with a line break would be written to a file
+		// that cannot be loaded again
+		if dotSplit[0] == "" || strings.ContainsAny(args[0]+args[1], "\n\r") {
+			return ErrInvalidArgs
+		}
 
 		// get global flag
 		isGlobal, err := cmd.Flags().GetBool("global")
